@@ -416,6 +416,7 @@ mod kani_c06 {
     // The harnesses are split per option shape (constant shape => constant option layout => tractable for CBMC);
     // together the shapes cover mss x wscale x timestamp x {no SACK, SACK permitted, 1, 2, 3 SACK blocks}.
     const TCP_PAY: usize = 4;
+    const TCP_CONC_FLAGS: bool = false;
 
     fn valid_tcp(r: &TcpRepr) -> bool {
         let prefix = (r.sack_ranges[1].is_none() || r.sack_ranges[0].is_some()) && (r.sack_ranges[2].is_none() || r.sack_ranges[1].is_some());
@@ -425,6 +426,12 @@ mod kani_c06 {
             && prefix && (!any_sack || (!r.sack_permitted && r.ack_number.is_some()))
             && r.header_len() <= 60
     }
+
+    /// bytes used by header + options of a shape (before padding), from the wire format
+    fn tcp_shape_used(mss: bool, ws: bool, ts: bool, sackperm: bool, nsack: usize) -> usize {
+        20 + (if mss { 4 } else { 0 }) + (if ws { 3 } else { 0 }) + (if sackperm { 2 } else { 0 }) + (if ts { 10 } else { 0 }) + (if nsack > 0 { 2 + 8 * nsack } else { 0 })
+    }
+    fn tcp_shape_hl(mss: bool, ws: bool, ts: bool, sackperm: bool, nsack: usize) -> usize { (tcp_shape_used(mss, ws, ts, sackperm, nsack) + 3) / 4 * 4 }
 
     fn tcp_rt(mss: bool, ws: bool, ts: bool, sackperm: bool, nsack: usize) {
         let pay: [u8; TCP_PAY] = kani::any();
@@ -452,10 +459,21 @@ mod kani_c06 {
         let (src, dst) = ip_pair();
         let mut a: [u8; 60 + TCP_PAY] = kani::any();
         let mut b: [u8; 60 + TCP_PAY] = kani::any();
+        if TCP_CONC_FLAGS { a[12] = 0xff; a[13] = 0xff; b[12] = 0; b[13] = 0; }
         let n = repr.buffer_len();
         assert!(n <= 60 + TCP_PAY);
         repr.emit(&mut TcpPacket::new_unchecked(&mut a[..n]), &src, &dst, &ChecksumCapabilities::ignored());
         repr.emit(&mut TcpPacket::new_unchecked(&mut b[..n]), &src, &dst, &ChecksumCapabilities::ignored());
+        // Tractability aid, semantically a no-op: the data-offset byte and the option padding are asserted to hold the
+        // constants implied by the option shape and are then overwritten with those very constants, so that CBMC's symbolic
+        // execution sees a constant header length when the parser walks the options (otherwise every option offset is symbolic).
+        let k = tcp_shape_hl(mss, ws, ts, sackperm, nsack);
+        let used = tcp_shape_used(mss, ws, ts, sackperm, nsack);
+        assert!(repr.header_len() == k);
+        assert!(a[12] == ((k / 4) << 4) as u8, "C06.tcp: data offset written, reserved bits and NS cleared");
+        a[12] = ((k / 4) << 4) as u8;
+        let mut j = used;
+        while j < k { assert!(a[j] == 0, "C06.tcp: option padding is end-of-list"); a[j] = 0; j += 1; }
         let p = TcpPacket::new_checked(&a[..n]);
         assert!(p.is_ok(), "C06.tcp: emitted segment passes new_checked");
         let p = p.unwrap();
@@ -536,6 +554,149 @@ mod kani_c06 {
     fn c06_tcpx_000() { tcp_rt(false, false, false, false, 0); }
     #[kani::proof] #[kani::unwind(8)]
     fn c06_tcpx_111() { tcp_rt(true, true, true, false, 0); }
+
+    fn tcp_simple(pl: usize) -> ([u8; TCP_PAY], usize) { let pay: [u8; TCP_PAY] = kani::any(); (pay, pl) }
+    fn tcp_repr0<'a>(pay: &'a [u8]) -> TcpRepr<'a> {
+        TcpRepr { src_port: kani::any(), dst_port: kani::any(), control: TcpControl::None, seq_number: TcpSeqNumber(kani::any()),
+            ack_number: None, window_len: kani::any(), window_scale: None, max_seg_size: None, sack_permitted: false, sack_ranges: [None; 3], timestamp: None, payload: pay }
+    }
+    #[kani::proof] #[kani::unwind(8)]
+    fn c06_tcpx_e1() { // one emit only, symbolic pl
+        let (pay, _) = tcp_simple(0); let pl: usize = kani::any(); kani::assume(pl <= TCP_PAY);
+        let repr = tcp_repr0(&pay[..pl]); let (src, dst) = ip_pair();
+        let mut a: [u8; 60 + TCP_PAY] = kani::any(); let n = repr.buffer_len();
+        repr.emit(&mut TcpPacket::new_unchecked(&mut a[..n]), &src, &dst, &ChecksumCapabilities::ignored());
+        assert!(a[0] == (repr.src_port >> 8) as u8);
+    }
+    #[kani::proof] #[kani::unwind(8)]
+    fn c06_tcpx_e2() { // one emit only, pl = 0
+        let (pay, _) = tcp_simple(0);
+        let repr = tcp_repr0(&pay[..0]); let (src, dst) = ip_pair();
+        let mut a: [u8; 60 + TCP_PAY] = kani::any(); let n = repr.buffer_len();
+        repr.emit(&mut TcpPacket::new_unchecked(&mut a[..n]), &src, &dst, &ChecksumCapabilities::ignored());
+        assert!(a[0] == (repr.src_port >> 8) as u8);
+    }
+    #[kani::proof] #[kani::unwind(8)]
+    fn c06_tcpx_e3() { // one emit + parse, pl = 0
+        let (pay, _) = tcp_simple(0);
+        let repr = tcp_repr0(&pay[..0]); let (src, dst) = ip_pair();
+        kani::assume(repr.src_port != 0 && repr.dst_port != 0);
+        let mut a: [u8; 60 + TCP_PAY] = kani::any(); let n = repr.buffer_len();
+        repr.emit(&mut TcpPacket::new_unchecked(&mut a[..n]), &src, &dst, &ChecksumCapabilities::ignored());
+        let p = TcpPacket::new_checked(&a[..n]).unwrap();
+        let r = TcpRepr::parse(&p, &src, &dst, &ChecksumCapabilities::ignored());
+        assert!(r.is_ok());
+    }
+    #[kani::proof] #[kani::unwind(8)]
+    fn c06_tcpx_e4() { // parse only of a 20-byte header
+        let a: [u8; 20] = kani::any(); let (src, dst) = ip_pair();
+        if let Ok(p) = TcpPacket::new_checked(&a[..]) {
+            let r = TcpRepr::parse(&p, &src, &dst, &ChecksumCapabilities::ignored());
+            kani::cover!(r.is_ok());
+        }
+    }
+
+    #[kani::proof] #[kani::unwind(8)]
+    fn c06_tcpx_e5() { // parse only of a 20-byte header, concrete data offset
+        let mut a: [u8; 20] = kani::any(); let (src, dst) = ip_pair();
+        a[12] = 0x50;
+        if let Ok(p) = TcpPacket::new_checked(&a[..]) {
+            let r = TcpRepr::parse(&p, &src, &dst, &ChecksumCapabilities::ignored());
+            kani::cover!(r.is_ok());
+        }
+    }
+    #[kani::proof] #[kani::unwind(8)]
+    fn c06_tcpx_e6() { // emit + parse, pl = 0, concrete flag garbage, small array
+        let (pay, _) = tcp_simple(0);
+        let repr = tcp_repr0(&pay[..0]); let (src, dst) = ip_pair();
+        kani::assume(repr.src_port != 0 && repr.dst_port != 0);
+        let mut a: [u8; 40] = kani::any(); let n = repr.buffer_len();
+        a[12] = 0xff; a[13] = 0xff;
+        repr.emit(&mut TcpPacket::new_unchecked(&mut a[..n]), &src, &dst, &ChecksumCapabilities::ignored());
+        let p = TcpPacket::new_checked(&a[..n]).unwrap();
+        let r = TcpRepr::parse(&p, &src, &dst, &ChecksumCapabilities::ignored());
+        assert!(r.is_ok());
+    }
+    #[kani::proof] #[kani::unwind(8)]
+    fn c06_tcpx_e7() { // TcpOption::parse alone
+        let a: [u8; 12] = kani::any();
+        let r = TcpOption::parse(&a[..]);
+        kani::cover!(r.is_ok());
+    }
+
+    #[kani::proof] #[kani::unwind(8)]
+    fn c06_tcpx_e9() { // set_header_len on concrete garbage, then parse
+        let mut a: [u8; 40] = kani::any(); let (src, dst) = ip_pair();
+        a[12] = 0xff; a[13] = 0xff;
+        { let mut p = TcpPacket::new_unchecked(&mut a[..20]); p.set_header_len(20); p.clear_flags(); }
+        if let Ok(p) = TcpPacket::new_checked(&a[..20]) {
+            let r = TcpRepr::parse(&p, &src, &dst, &ChecksumCapabilities::ignored());
+            kani::cover!(r.is_ok());
+        }
+    }
+    #[kani::proof] #[kani::unwind(8)]
+    fn c06_tcpx_e10() { // full emit, then overwrite a[12], a[13] with constants, parse
+        let (pay, _) = tcp_simple(0);
+        let repr = tcp_repr0(&pay[..0]); let (src, dst) = ip_pair();
+        let mut a: [u8; 40] = kani::any();
+        repr.emit(&mut TcpPacket::new_unchecked(&mut a[..20]), &src, &dst, &ChecksumCapabilities::ignored());
+        a[12] = 0x50; a[13] = 0;
+        if let Ok(p) = TcpPacket::new_checked(&a[..20]) {
+            let r = TcpRepr::parse(&p, &src, &dst, &ChecksumCapabilities::ignored());
+            kani::cover!(r.is_ok());
+        }
+    }
+    #[kani::proof] #[kani::unwind(8)]
+    fn c06_tcpx_e11() { // full emit, copy to fresh array with constant a[12], parse
+        let (pay, _) = tcp_simple(0);
+        let repr = tcp_repr0(&pay[..0]); let (src, dst) = ip_pair();
+        let mut a: [u8; 40] = kani::any();
+        repr.emit(&mut TcpPacket::new_unchecked(&mut a[..20]), &src, &dst, &ChecksumCapabilities::ignored());
+        let mut c = [0u8; 20];
+        let mut i = 0; while i < 20 { c[i] = a[i]; i += 1; }
+        c[12] = 0x50;
+        if let Ok(p) = TcpPacket::new_checked(&c[..20]) {
+            let r = TcpRepr::parse(&p, &src, &dst, &ChecksumCapabilities::ignored());
+            kani::cover!(r.is_ok());
+        }
+    }
+
+    #[kani::proof] #[kani::unwind(8)]
+    fn c06_tcpx_e12() { // full emit, then overwrite a[12] only
+        let (pay, _) = tcp_simple(0);
+        let repr = tcp_repr0(&pay[..0]); let (src, dst) = ip_pair();
+        let mut a: [u8; 40] = kani::any();
+        repr.emit(&mut TcpPacket::new_unchecked(&mut a[..20]), &src, &dst, &ChecksumCapabilities::ignored());
+        a[12] = 0x50;
+        if let Ok(p) = TcpPacket::new_checked(&a[..20]) {
+            let r = TcpRepr::parse(&p, &src, &dst, &ChecksumCapabilities::ignored());
+            kani::cover!(r.is_ok());
+        }
+    }
+    #[kani::proof] #[kani::unwind(8)]
+    fn c06_tcpx_e13() { // e12 with 64-byte array and symbolic payload length
+        let (pay, _) = tcp_simple(0); let pl: usize = kani::any(); kani::assume(pl <= TCP_PAY);
+        let repr = tcp_repr0(&pay[..pl]); let (src, dst) = ip_pair();
+        let mut a: [u8; 64] = kani::any(); let n = repr.buffer_len();
+        repr.emit(&mut TcpPacket::new_unchecked(&mut a[..n]), &src, &dst, &ChecksumCapabilities::ignored());
+        a[12] = 0x50;
+        if let Ok(p) = TcpPacket::new_checked(&a[..n]) {
+            let r = TcpRepr::parse(&p, &src, &dst, &ChecksumCapabilities::ignored());
+            kani::cover!(r.is_ok());
+        }
+    }
+    #[kani::proof] #[kani::unwind(8)]
+    fn c06_tcpx_e14() { // e13 with 63-byte array
+        let (pay, _) = tcp_simple(0); let pl: usize = kani::any(); kani::assume(pl <= 3);
+        let repr = tcp_repr0(&pay[..pl]); let (src, dst) = ip_pair();
+        let mut a: [u8; 63] = kani::any(); let n = repr.buffer_len();
+        repr.emit(&mut TcpPacket::new_unchecked(&mut a[..n]), &src, &dst, &ChecksumCapabilities::ignored());
+        a[12] = 0x50;
+        if let Ok(p) = TcpPacket::new_checked(&a[..n]) {
+            let r = TcpRepr::parse(&p, &src, &dst, &ChecksumCapabilities::ignored());
+            kani::cover!(r.is_ok());
+        }
+    }
 
     // ==== END kani_c06 ====
 }
